@@ -219,7 +219,7 @@ pub fn run(ctx: &mut Ctx) {
                 and one application per target; every method is called through Impl<A_k> and directly as `X_k::m(&app, ..)` with distinct values; results and one-entry traces \
                 (target tag, fn tag, deps address, args, sum of further dependencies) must agree; non-trivial = >=2 targets and (>=2 methods, >=2 same-typed args or >=1 further dependency); distinct = distinct program text"
         .into();
-    let n = ctx.n(300, 4000) as usize;
+    let n = ctx.n(1000, 8000) as usize;
     let tapes = crate::drive::gen_tapes(ctx.seed, 700, n, TAPE_LEN);
     let cases: Vec<Case> = tapes.iter().map(|tp| gen_case(&mut Tape::new(tp))).collect();
     let mut batch = Batch::new("c07", Opts { feature_unimock: false, members: 16, ..Default::default() });
